@@ -170,7 +170,9 @@ class InterpCore(object):
                  "sum", "min", "max", "abs", "hasattr", "getattr", "isinstance", "dict", "set", "iter", "next",
                  "super", "round", "reversed", "open", "bool", "object", "Exception", "ValueError", "KeyError",
                  "NotImplementedError", "ImportError", "StopIteration", "AttributeError", "TypeError", "any", "all",
-                 "map", "filter", "repr", "callable", "id", "type", "divmod", "pow")
+                 "map", "filter", "repr", "callable", "id", "type", "divmod", "pow", "setattr", "frozenset", "delattr",
+                 "IndexError", "RuntimeError", "LookupError", "ZeroDivisionError", "OverflowError", "ArithmeticError",
+                 "AssertionError", "OSError", "IOError", "FloatingPointError", "NameError", "UnicodeError", "BaseException")
 
     def lookup_name(self, name, env, node=None):
         v = env.lookup(name)
@@ -433,7 +435,9 @@ class InterpCore(object):
             elif (isinstance(a, Const) and a.v is None) or (isinstance(b, Const) and b.v is None):
                 other = b if (isinstance(a, Const) and a.v is None) else a
                 if isinstance(other, (Opaque, Phi, LookupV, Unknown)):
-                    c = Cond("isnone", other)
+                    c = self.isnone_of(other)
+                    if isinstance(c, bool):
+                        return c if opn == "Is" else (not c)
                     return c if opn == "Is" else neg_cond(c)
                 elif not isinstance(other, (Undefined,)):
                     r = False
@@ -465,6 +469,24 @@ class InterpCore(object):
         sym = {"Lt": "<", "LtE": "<=", "Gt": ">", "GtE": ">="}[opn]
         return Cond("cmp", sym, Num(x), Num(y))
 
+    def isnone_of(self, v):
+        """'v is None' - decided through conditional values whose arms are plainly None / not None"""
+        if isinstance(v, Phi) and v.a is not None and v.b is not None:
+            def arm(x):
+                if isinstance(x, Const):
+                    return x.v is None
+                if isinstance(x, Phi):
+                    return self.isnone_of(x)
+                if isinstance(x, (Opaque, LookupV, Unknown, Undefined)):
+                    return None
+                return False
+            ta, tb = arm(v.a), arm(v.b)
+            if isinstance(ta, bool) and isinstance(tb, bool):
+                if ta == tb:
+                    return ta
+                return v.cond if ta else neg_cond(v.cond)
+        return Cond("isnone", v)
+
     def equals(self, a, b, node=None):
         if type(a).__name__ == "NTV":
             a = ListV(a.values, "tuple")
@@ -495,7 +517,7 @@ class InterpCore(object):
                 return other.v is None
             if not isinstance(other, (Opaque, Phi, LookupV, Unknown)):
                 return False
-            return Cond("isnone", other)
+            return self.isnone_of(other)
         if isinstance(a, Const) and isinstance(b, Num) or isinstance(a, Num) and isinstance(b, Const):
             return False
         if isinstance(a, (ListV, SortedV)) and isinstance(b, (ListV, SortedV)):
@@ -623,18 +645,53 @@ class InterpCore(object):
             lo = self.eval(node.slice.lower, env) if node.slice.lower else None
             hi = self.eval(node.slice.upper, env) if node.slice.upper else None
             if node.slice.step is not None:
-                self.err(node, "slice step")
+                step = self.eval(node.slice.step, env)
+                sc = step.const() if isinstance(step, Num) else None
+                if sc is None or sc.denominator != 1 or sc == 0:
+                    self.err(node, "symbolic slice step")
+                if sc != 1:
+                    return self.slice(base, lo, hi, node, int(sc))
             return self.slice(base, lo, hi, node)
         idx = self.eval(node.slice, env)
         return self.getitem(base, idx, node)
 
     def e_ListComp(self, node, env):
+        if len(node.generators) > 1:
+            return self.comp_as_loops(node, env, "list")
         return self.comprehension(node, env, "list")
 
     def e_GeneratorExp(self, node, env):
+        if len(node.generators) > 1:
+            return self.comp_as_loops(node, env, "list")
         return self.comprehension(node, env, "list")
 
+    def comp_as_loops(self, node, env, kind):
+        """a comprehension is its defining loop nest:  acc = []/set()/{};  for ...: for ...: if ...: acc.append/add/[k]=v"""
+        name = "_comp_acc_%d" % next(self.fresh)
+        acc = ast.Name(id=name, ctx=ast.Load())
+        if kind == "dict":
+            init = ast.Dict(keys=[], values=[])
+            inner = ast.Assign(targets=[ast.Subscript(value=acc, slice=node.key, ctx=ast.Store())], value=node.value)
+        else:
+            init = ast.Call(func=ast.Name(id="set", ctx=ast.Load()), args=[], keywords=[]) if kind == "set" else ast.List(elts=[], ctx=ast.Load())
+            inner = ast.Expr(value=ast.Call(func=ast.Attribute(value=acc, attr="add" if kind == "set" else "append", ctx=ast.Load()),
+                                            args=[node.elt], keywords=[]))
+        body = inner
+        for g in reversed(node.generators):
+            for cnd in reversed(g.ifs):
+                body = ast.If(test=cnd, body=[body], orelse=[])
+            body = ast.For(target=g.target, iter=g.iter, body=[body], orelse=[])
+        stmts = [ast.Assign(targets=[ast.Name(id=name, ctx=ast.Store())], value=init), body]
+        for st in stmts:
+            ast.copy_location(st, node)
+            ast.fix_missing_locations(st)
+        sub = Env(parent=env, label=env.label)
+        self.exec_block(stmts, sub)
+        return sub.vars[name]
+
     def e_DictComp(self, node, env):
+        if len(node.generators) > 1:
+            return self.comp_as_loops(node, env, "dict")
         fake = ast.ListComp(elt=ast.Tuple(elts=[node.key, node.value], ctx=ast.Load()), generators=node.generators)
         ast.copy_location(fake, node)
         ast.fix_missing_locations(fake)
@@ -642,7 +699,7 @@ class InterpCore(object):
         return self.call(ExtV("builtins.dict"), [lst], {}, node, env)
 
     def e_SetComp(self, node, env):
-        return self.comprehension(node, env, "set")
+        return self.comp_as_loops(node, env, "set")
 
     def e_Call(self, node, env):
         fn = self.eval(node.func, env)
@@ -699,6 +756,9 @@ def neg_cond(c):
 
 
 def make_phi(cond, a, b):
+    # canonical orientation: 'x if not c else y' and 'y if c else x' are the same value
+    while isinstance(cond, Cond) and cond.kind == "not" and isinstance(cond.args[0], Cond):
+        cond, a, b = cond.args[0], b, a
     ck = cond.key()
     while isinstance(a, Phi) and a.cond.key() == ck:
         a = a.a
@@ -732,7 +792,8 @@ def _as_get_with_default(cond, a, b):
     item, cont = c.args
     found, other = (b, a) if neg else (a, b)
     if isinstance(found, LookupV) and found.default is None and isinstance(cont, LoopDictV) \
-            and found.ld is cont and found.query.key() == item.key() and other is not None and not isinstance(other, Undefined):
+            and found.ld is cont and found.query.key() == item.key() and other is not None \
+            and not isinstance(other, (Undefined, Unknown)):
         return LookupV(cont, found.query, other)
     return None
 
